@@ -37,7 +37,7 @@ Proof.
     by (rewrite HA; reflexivity).
   rewrite !nth_error_map in G.
   destruct (nth_error (SM.get_arena S k) (N.to_nat i)), (nth_error (SM.get_arena T k) (N.to_nat i)); cbn in G;
-    try discriminate; [inversion G; reflexivity|exact I].
+    try discriminate; [injection G as G1 G2; unfold core; rewrite G1, G2; reflexivity|exact I].
 Qed.
 
 Lemma same_core_find_id : forall S T f p, same_core S T -> SM.find_symbol_id_at S f p = SM.find_symbol_id_at T f p.
@@ -48,8 +48,8 @@ Proof.
   intros S T f p H. unfold SM.goto_definition, SM.find_symbol_at. rewrite (same_core_find_id _ _ f p H).
   destruct (SM.find_symbol_id_at T f p) as [s|]; [|reflexivity].
   unfold SM.symbol. pose proof (same_core_entry _ _ s H) as E.
-  destruct (SM.get_entry S s) as [e|], (SM.get_entry T s) as [e'|]; try (destruct E); [|reflexivity].
-  cbn. inversion E as [[E1 E2]]. rewrite E1. reflexivity.
+  destruct (SM.get_entry S s) as [e|], (SM.get_entry T s) as [e'|]; [|contradiction|contradiction|reflexivity].
+  cbn. injection E as E1 E2. rewrite E1. reflexivity.
 Qed.
 
 Theorem same_core_references : forall S T f p, same_core S T -> SM.references S f p = SM.references T f p.
@@ -57,8 +57,8 @@ Proof.
   intros S T f p H. unfold SM.references, SM.find_symbol_at. rewrite (same_core_find_id _ _ f p H).
   destruct (SM.find_symbol_id_at T f p) as [s|]; [|reflexivity].
   unfold SM.symbol. pose proof (same_core_entry _ _ s H) as E.
-  destruct (SM.get_entry S s) as [e|], (SM.get_entry T s) as [e'|]; try (destruct E); [|reflexivity].
-  cbn. inversion E as [[E1 E2]]. rewrite E2. reflexivity.
+  destruct (SM.get_entry S s) as [e|], (SM.get_entry T s) as [e'|]; [|contradiction|contradiction|reflexivity].
+  cbn. injection E as E1 E2. rewrite E2. reflexivity.
 Qed.
 
 Theorem same_core_iter : forall S T loc, same_core S T -> SM.iter_symbols_in_range S loc = SM.iter_symbols_in_range T loc.
